@@ -127,6 +127,8 @@ class Engine:
         self.seed = 0
         self.hooks = {}
         self.watch = {}
+        self.depth_stop = None
+        self.frontier_prefixes = []
         from . import models as _m
         _m.install(self)
 
@@ -174,6 +176,9 @@ class Engine:
             except Deadlock as e:
                 st = 'deadlock'
                 info = str(e)
+            except DepthStop:
+                st = None
+                self.frontier_prefixes.append(list(self.trace))
             work.extend(self.pending)
             self.stats['runs'] += 1
             if st:
@@ -181,6 +186,17 @@ class Engine:
                 results.append(Path(st, list(self.trace), out, list(self.pc), list(self.events), info, list(self.imprecise)))
         self.leftover = work
         return results
+
+    def frontier(self, harness, depth):
+        """decision prefixes of length `depth` (or shorter, for runs that end earlier) that together cover the whole tree:
+        used to split one exploration over worker processes"""
+        self.depth_stop = depth
+        self.frontier_prefixes = []
+        try:
+            done = self.explore(harness)
+        finally:
+            self.depth_stop = None
+        return self.frontier_prefixes + [p.trace for p in done]
 
     def _reset(self, prefix):
         self.prefix = prefix
@@ -279,6 +295,8 @@ class Engine:
         if i < len(self.prefix):
             ch = self.prefix[i]
         else:
+            if self.depth_stop is not None and i >= self.depth_stop:
+                raise DepthStop()
             t_ok = f_ok = None
             if self.model is not None:
                 try:
@@ -331,6 +349,8 @@ class Engine:
         if i < len(self.prefix):
             ch = self.prefix[i]
         else:
+            if self.depth_stop is not None and i >= self.depth_stop:
+                raise DepthStop()
             ch = 0
             for k in range(n - 1, 0, -1):
                 self.pending.append(self.trace + [k])
